@@ -71,7 +71,8 @@ def summaries():
 
 def run(out, tier):
     eng = mirrun.load_engine(out)
-    out.functions += ["opcode::{arithmetic,logic}::<22 simple ALU opcodes>::execute"]
+    out.functions += ["opcode::{arithmetic,logic}::<22 simple ALU opcodes>::execute", "vm::state::stack::Stack::{push,pop,read,duplicate,swap}",
+                      "opcode::memory::{DupN,SwapN,MStore,MStore8,MLoad,SStore,SLoad}::execute"]
     out.bounds += ["one execution of each opcode's `execute` from an arbitrary VM state; stack traffic abstracted to "
                    "pop -> k-th operand | error, push -> ok | error; all paths"]
     out.assumptions += ["ONLY the operand-wiring kernel of C07 is decided: the meaning of each node kind on constants is C09, PUSH decoding is C10; "
@@ -151,3 +152,303 @@ def run(out, tier):
             else:
                 out.obligation(oid, "mirsmt", "cex-not-reproduced", dt, witness=False, note=bad, replay=rep)
                 out.inconc("%s: %s (not reproduced natively: %s)" % (oid, bad, rep))
+    stack_kernel(out, eng, tier)
+    dup_swap_and_memory(out, eng)
+
+
+# =============================================================================================================
+# W2: the stack itself (push / pop / read / duplicate / swap) against a list model, and DUPn / SWAPn indexing
+# W3: which popped operand the memory / storage opcodes hand to which parameter
+# =============================================================================================================
+def stack_summaries():
+    """Vec<RuntimeBoxedVal> as a Python list of opaque, pairwise distinct elements."""
+    from mirsmt.summaries import load, deref, some, none
+
+    def stk(ctx, r):
+        v = r
+        for _ in range(4):
+            if isinstance(v, Obj) and v.kind == "stk":
+                return v
+            if isinstance(v, (Ref, Lazy)):
+                v = load(ctx, v)
+            else:
+                break
+        return None
+
+    def vlen(ctx, a, ty, c):
+        s = stk(ctx, a[0])
+        return Int(len(s.items), 64) if s is not None else NotImplemented
+
+    def is_empty(ctx, a, ty, c):
+        s = stk(ctx, a[0])
+        from mirsmt.interp import Bool
+        return Bool(len(s.items) == 0) if s is not None else NotImplemented
+
+    def push(ctx, a, ty, c):
+        s = stk(ctx, a[0])
+        if s is None:
+            return NotImplemented
+        s.items.append(a[1])
+        return UNIT
+
+    def pop(ctx, a, ty, c):
+        s = stk(ctx, a[0])
+        if s is None:
+            return NotImplemented
+        return some(ty, s.items.pop()) if s.items else none(ty)
+
+    def index(ctx, a, ty, c):
+        s = stk(ctx, a[0])
+        if s is None:
+            return NotImplemented
+        i = ctx.force(a[1]).e
+        n = len(s.items)
+        k = ctx.branch([i == z3.BitVecVal(j, 64) for j in range(n)] + [z3.UGE(i, z3.BitVecVal(n, 64))])
+        if k == n:
+            from mirsmt.interp import PathEnd
+            raise PathEnd("panic", "index out of bounds")
+        cell = Cell(s.items[k], "stk[%d]" % k)
+        ctx.events.append(("indexed", k))
+        return Ref(cell, ())
+
+    def swap(ctx, a, ty, c):
+        s = stk(ctx, a[0])
+        if s is None:
+            return NotImplemented
+        n = len(s.items)
+        idx = []
+        for x in (a[1], a[2]):
+            i = ctx.force(x).e
+            k = ctx.branch([i == z3.BitVecVal(j, 64) for j in range(n)] + [z3.UGE(i, z3.BitVecVal(n, 64))])
+            if k == n:
+                from mirsmt.interp import PathEnd
+                raise PathEnd("panic", "swap index out of bounds")
+            idx.append(k)
+        s.items[idx[0]], s.items[idx[1]] = s.items[idx[1]], s.items[idx[0]]
+        return UNIT
+
+    def clone(ctx, a, ty, c):
+        v = load(ctx, a[0])
+        return v if isinstance(v, Obj) and v.kind == "operand" else NotImplemented
+
+    def ident(ctx, a, ty, c):
+        return a[0] if stk(ctx, a[0]) is not None else NotImplemented
+    return [(r"^Vec::<Arc<SymbolicValue<\(\)>>>::len$", vlen), (r"^Vec::<Arc<SymbolicValue<\(\)>>>::is_empty$", is_empty),
+            (r"^Vec::<Arc<SymbolicValue<\(\)>>>::push$", push), (r"^Vec::<Arc<SymbolicValue<\(\)>>>::pop$", pop),
+            (r"^<Vec<Arc<SymbolicValue<\(\)>>> as (Index|IndexMut)<usize>>::(index|index_mut)$", index),
+            (r"^core::slice::<impl \[Arc<SymbolicValue<\(\)>>\]>::swap$", swap),
+            (r"^<Vec<Arc<SymbolicValue<\(\)>>> as (Deref|DerefMut)>::(deref|deref_mut)$", ident),
+            (r"^<Arc<SymbolicValue<\(\)>> as Clone>::clone$", clone)]
+
+
+def stack_kernel(out, eng, tier):
+    file = "src/vm/state/stack.rs"
+    depths = (0, 1, 2, 3, 17) if tier == "quick" else (0, 1, 2, 3, 4, 16, 17, 18)
+    FRAME = z3.BitVec("frame", 32)
+    fns = {n: eng.fn(">::" + n, file=file + ":2") if False else None for n in ()}
+    impl = [f for n, f in eng.fns.items() if "<impl at %s" % file in n]
+
+    def get(name):
+        c = [f for f in impl if f.name.endswith(">::" + name) and "Stack" in (f.args[0][1] if f.args else "") and "Located" not in f.args[0][1]]
+        if len(c) != 1:
+            raise Unsupported("Stack::%s: %d candidates" % (name, len(c)))
+        return c[0]
+    t0 = time.time()
+    bad = None
+    n_paths = 0
+    try:
+        for op in ("push", "pop", "read", "duplicate", "swap"):
+            f = get(op)
+            for depth in depths:
+                ex = eng.explorer(extra=stack_summaries())
+
+                def body(ctx, f=f, op=op, depth=depth):
+                    items = [Obj("operand", "RuntimeBoxedVal", index=i) for i in range(depth)]
+                    s = Obj("stk", "Vec<RuntimeBoxedVal>", items=list(items))
+                    cell = Cell(Agg("vm::state::stack::Stack", {0: s}), "stack")
+                    args = [Ref(cell, (), True)]
+                    if op == "push":
+                        args.append(Obj("operand", "RuntimeBoxedVal", index=99))
+                    elif op != "pop":
+                        args.append(Int(FRAME, 32))
+                    r = ctx.run_fn(f, args)
+                    return r, s, items, ctx
+                for p in ex.explore(body):
+                    n_paths += 1
+                    if p.kind != "return":
+                        bad = "Stack::%s at depth %d: path ends with %s (%s)" % (op, depth, p.kind, p.msg[:50])
+                        continue
+                    r, s, items, ctx = p.ret
+                    okr = isinstance(r, Agg) and r.variant == "Ok"
+                    fr = None
+                    if op not in ("push", "pop"):
+                        sol = z3.Solver()
+                        for c_ in p.pc:
+                            sol.add(c_)
+                        if sol.check() != z3.sat:
+                            continue
+                        fr = sol.model().eval(FRAME, model_completion=True).as_long()
+                        # the path must cover exactly one frame value when it succeeds
+                    want_ok = {"push": True, "pop": depth > 0}.get(op, fr is not None and fr < depth)
+                    if okr != want_ok:
+                        bad = "Stack::%s at depth %d (frame %s): returns %s" % (op, depth, fr, "Ok" if okr else "Err")
+                        continue
+                    ids = [x.index for x in s.items]
+                    base = list(range(depth))
+                    if not okr:
+                        exp = base
+                    elif op == "push":
+                        exp = base + [99]
+                    elif op == "pop":
+                        exp = base[:-1]
+                        got = r.fields[0]
+                        if got.index != depth - 1:
+                            bad = "Stack::pop returns element %d of %d" % (got.index, depth)
+                    elif op == "read":
+                        exp = base
+                        from mirsmt.summaries import load
+                        got = load(ctx, r.fields[0])
+                        if got.index != depth - 1 - fr:
+                            bad = "Stack::read(%d) at depth %d returns element %d" % (fr, depth, got.index)
+                    elif op == "duplicate":
+                        exp = base + [depth - 1 - fr]
+                    else:
+                        exp = list(base)
+                        exp[depth - 1], exp[depth - 1 - fr] = exp[depth - 1 - fr], exp[depth - 1]
+                    if ids != exp:
+                        bad = "Stack::%s(frame %s) at depth %d leaves %s, expected %s (bottom..top)" % (op, fr, depth, ids, exp)
+    except Unsupported as e:
+        out.obligation("W2.stack_operations", "mirsmt", "inconclusive", 0, witness=False, note=str(e))
+        out.inconc("W2: %s" % e)
+        return
+    dt = time.time() - t0
+    if bad is None:
+        out.obligation("W2.stack_operations", "mirsmt", "holds", dt, witness=n_paths > 0, paths=n_paths, depths=list(depths),
+                       note="push / pop / read / duplicate / swap agree with a list model for every frame index at these depths")
+    else:
+        confirmed, rep = native.scenario(out, "stack_ops", {})
+        if confirmed:
+            out.obligation("W2.stack_operations", "mirsmt", "violated", dt, witness=True, note=bad, replay=rep)
+            out.violation(C.Violation(key="stack-operation-differs-from-model", what="W2: " + bad, replay={"engine": "mirsmt", "native": rep}))
+        else:
+            out.obligation("W2.stack_operations", "mirsmt", "cex-not-reproduced", dt, witness=False, note=bad, replay=rep)
+            out.inconc("W2: %s (not reproduced natively: %s)" % (bad, str(rep)[:200]))
+
+
+def dup_swap_and_memory(out, eng):
+    """DUPn duplicates the n-th item from the top (frame n-1), SWAPn exchanges the top with the (n+1)-th (frame n);
+    MSTORE/MSTORE8/SSTORE hand (top, second) to (offset|key, value); MLOAD/SLOAD use the top as offset|key and push
+    what the load returns; POP removes one item."""
+    M = "src/opcode/memory.rs"
+    ITEM = z3.BitVec("self.0", 8)
+
+    def handle_op(name):
+        def f(ctx, a, ty, c):
+            ctx.events.append((name, ctx.force(a[1]).e, list(ctx.pc)))
+            from mirsmt.summaries import ok
+            return ok(ty, UNIT)
+        return f
+
+    def capture(name, n_args):
+        def f(ctx, a, ty, c):
+            ctx.events.append((name,) + tuple(a[1:1 + n_args]))
+            return Obj("loaded", "RuntimeBoxedVal", by=name) if name.endswith("load") else UNIT
+        return f
+
+    def state(ctx, a, ty, c):
+        from mirsmt.summaries import ok
+        return ok(ty, Ref(Cell(Obj("vmstate", "VMState"), "state"), (), True))
+
+    def accessor(ctx, a, ty, c):
+        return Ref(Cell(Obj("part", "?"), "part"), (), True)
+    extra = summaries() + [(r"^LocatedStackHandle::<'_>::dup$", handle_op("dup")), (r"^LocatedStackHandle::<'_>::swap$", handle_op("swap")),
+                           (r"^Memory::store$", capture("mstore", 2)), (r"^Memory::store_8$", capture("mstore8", 2)),
+                           (r"^Memory::load$", capture("mload", 1)), (r"^Storage::store$", capture("sstore", 2)), (r"^Storage::load$", capture("sload", 1)),
+                           (r"^VM::state$", state), (r"^VMState::(memory_mut|storage_mut|memory|storage)$", accessor)]
+    cases = [("DupN", "dup", lambda n: z3.ZeroExt(24, n) - 1), ("SwapN", "swap", lambda n: z3.ZeroExt(24, n))]
+    for ty_, ev_name, want in cases:
+        oid = "W3.%s_frame" % ty_
+        f = find_execute(eng, M, ty_)
+        ex = eng.explorer(extra=extra)
+
+        def body(ctx, f=f, ty_=ty_):
+            from . import jumps
+            ctx.assume(z3.And(jumps.vm_invariants(jumps.vm_names())[:7]))
+            ctx.assume(z3.And(z3.UGE(ITEM, 1), z3.ULE(ITEM, 16)))
+            me = Cell(Lazy("opcode::memory::%s" % ty_, "self"), "self")
+            r = ctx.run_fn(f, [Ref(me, ()), Ref(Cell(Lazy("vm::VM", "vm"), "vm"), (), True)])
+            return r, ctx
+        try:
+            paths = ex.explore(body)
+        except Unsupported as e:
+            out.obligation(oid, "mirsmt", "inconclusive", 0, witness=False, note=str(e))
+            out.inconc("%s: %s" % (oid, e))
+            continue
+        bad, seen = None, 0
+        for p in paths:
+            for e in p.ctx.events:
+                if e[0] == ev_name:
+                    seen += 1
+                    s = z3.Solver()
+                    for c_ in e[2]:
+                        s.add(c_)
+                    s.add(e[1] != want(ITEM))
+                    if s.check() == z3.sat:
+                        bad = "%s passes frame %s for n = %s" % (ty_, s.model().eval(e[1]), s.model().eval(ITEM))
+        _report(out, oid, bad, seen, "stack_ops", "%s uses the EVM's stack position for every n in 1..=16" % ty_, "dup-swap-frame:%s" % ty_)
+    # memory / storage wiring
+    table = {"MStore": ("mstore", [0, 1]), "MStore8": ("mstore8", [0, 1]), "SStore": ("sstore", [0, 1]), "MLoad": ("mload", [0]), "SLoad": ("sload", [0])}
+    for ty_, (ev_name, want) in table.items():
+        oid = "W3.%s_operands" % ty_
+        f = find_execute(eng, M, ty_)
+        ex = eng.explorer(extra=extra)
+
+        def body(ctx, f=f, ty_=ty_):
+            from . import jumps
+            ctx.assume(z3.And(jumps.vm_invariants(jumps.vm_names())[:7]))
+            r = ctx.run_fn(f, [Ref(Cell(Agg("opcode::memory::%s" % ty_), "self"), ()), Ref(Cell(Lazy("vm::VM", "vm"), "vm"), (), True)])
+            return r, ctx
+        try:
+            paths = ex.explore(body)
+        except Unsupported as e:
+            out.obligation(oid, "mirsmt", "inconclusive", 0, witness=False, note=str(e))
+            out.inconc("%s: %s" % (oid, e))
+            continue
+        bad, seen = None, 0
+        for p in paths:
+            if p.kind != "return" or not (isinstance(p.ret[0], Agg) and p.ret[0].variant == "Ok"):
+                continue
+            evs = [e for e in p.ctx.events if e[0] == ev_name]
+            pops = [e for e in p.ctx.events if e[0] == "pop"]
+            pushes = [e[1] for e in p.ctx.events if e[0] == "push"]
+            if len(evs) != 1 or len(pops) != len(want):
+                bad = "%s: %d %s calls, %d pops" % (ty_, len(evs), ev_name, len(pops))
+                continue
+            seen += 1
+            from mirsmt.summaries import load
+            got = []
+            for x in evs[0][1:]:
+                v = load(p.ctx, x) if isinstance(x, Ref) else x
+                got.append(v.index if isinstance(v, Obj) and v.kind == "operand" else None)
+            if got != want:
+                bad = "%s hands operands %s to (%s), the EVM order is %s" % (ty_, got, "offset|key, value", want)
+            if ev_name.endswith("load") and not (len(pushes) == 1 and isinstance(pushes[0], Obj) and pushes[0].kind == "loaded"):
+                bad = "%s does not push what the load returned" % ty_
+        _report(out, oid, bad, seen, "mem_storage_wiring", "%s hands the top of the stack to offset/key and the second item to value" % ty_,
+                "memory-storage-wiring:%s" % ty_)
+
+
+def _report(out, oid, bad, seen, scenario, what, key):
+    if bad is None and seen:
+        out.obligation(oid, "mirsmt", "holds", 0, witness=True, paths=seen, note=what)
+    elif bad is None:
+        out.obligation(oid, "mirsmt", "vacuous", 0, witness=False)
+        out.inconc("%s: nothing observed" % oid)
+    else:
+        confirmed, rep = native.scenario(out, scenario, {})
+        if confirmed:
+            out.obligation(oid, "mirsmt", "violated", 0, witness=True, note=bad, replay=rep)
+            out.violation(C.Violation(key=key, what="%s: %s" % (oid, bad), replay={"engine": "mirsmt", "native": rep}))
+        else:
+            out.obligation(oid, "mirsmt", "cex-not-reproduced", 0, witness=False, note=bad, replay=rep)
+            out.inconc("%s: %s (not reproduced natively: %s)" % (oid, bad, str(rep)[:200]))
